@@ -59,3 +59,76 @@ package server
 //@   ensures case ddl:     !allowWrite(c.contextNamespace, c.user) && stmtType == parser.StmtDDL ==> ret0
 //@   ensures case writer:  allowWrite(c.contextNamespace, c.user) ==> !ret0
 //@   ensures case reads:   (stmtType == parser.StmtSelect || stmtType == parser.StmtShow) ==> !ret0
+
+// ---------------------------------------------------------------- C16 prepared statements
+// the statement id of a COM_STMT_* payload: its first four bytes, little endian
+//@ pure le32(d []byte) uint32 = uint32(d[0]) | uint32(d[1])<<8 | uint32(d[2])<<16 | uint32(d[3])<<24
+//@ pure le16at(d []byte, p int) uint16 = uint16(d[p]) | uint16(d[p+1])<<8
+//@ trusted (encoding/binary.littleEndian).Uint32
+//@   params recv, b
+//@   pure-call
+//@   ensures ret0 == le32(b)
+//@ trusted (encoding/binary.littleEndian).Uint16
+//@   params recv, b
+//@   pure-call
+//@   ensures ret0 == le16at(b, 0)
+//@ constglobal mysql.ErrMalformPacket
+//@ axiom errMalformNonNil: mysql.ErrMalformPacket != nil
+// every bound value of statement s is cleared
+//@ pure unbound(s *Stmt) bool = len(s.args) == s.paramCount && forall(i, 0, len(s.args), s.args[i] == nil)
+
+//@ property C16: (*Stmt).ResetParams, (*SessionExecutor).handleStmtExecute, (*SessionExecutor).handleStmtReset, (*SessionExecutor).handleStmtSendLongData,
+//@   (*Stmt).SetParamTypes, (*Stmt).GetParamTypes, (*SessionExecutor).bindStmtArgs
+
+//@ func (*Stmt).ResetParams
+//@   requires s != nil && 0 <= s.paramCount
+//@   assigns s.args
+//@   ensures unbound(s)
+
+// handleQuery and the binder may do anything to the session except touch the statement table
+//@ func (*SessionExecutor).bindStmtArgs
+//@   mode bv
+//@   requires s != nil
+//@   may-panic when true
+//@   assigns s.args[0:len(s.args)]
+//@   loop 0(i) assigns s.args
+//@   loop 0(i) invariant 0 <= i && 0 <= pos && pos <= len(paramValues) + 256
+//@ func (*SessionExecutor).handleQuery
+//@   assigns se.status
+//@ func (*Stmt).SetParamTypes
+//@   requires s != nil
+//@   assigns s.paramTypes
+//@   ensures s.paramTypes == paramTypes
+//@ func (*Stmt).GetParamTypes
+//@   requires s != nil
+//@   assigns \nothing
+//@   ensures ret0 == s.paramTypes
+// GetRewriteSQL only builds a string from the statement (assumed frame; its loop is not under contract)
+//@ func (*Stmt).GetRewriteSQL
+//@   assigns \nothing
+
+// stmtWF: the statement table entry named by a COM_STMT_* payload is a well-formed statement
+//@ pure stmtWF(se *SessionExecutor, d []byte) bool = has(se.stmts, le32(d)) ==> (se.stmts[le32(d)] != nil && 0 <= se.stmts[le32(d)].paramCount
+//@        && se.stmts[le32(d)].paramCount <= 65535 && len(se.stmts[le32(d)].args) == se.stmts[le32(d)].paramCount)
+
+// After COM_STMT_EXECUTE on a known statement, success or failure, no value stays bound for the next execution.
+// (the binder may panic on a malformed packet; the panic is recovered by the session loop and the deferred
+// reset runs while it unwinds -- panic paths are not modelled)
+//@ func (*SessionExecutor).handleStmtExecute
+//@   requires se != nil && stmtWF(se, data)
+//@   may-panic when true
+//@   ensures case unknown: len(data) >= 9 && !old(has(se.stmts, le32(data))) ==> ret1 != nil
+//@   ensures case cleared: len(data) >= 9 && old(has(se.stmts, le32(data))) ==> unbound(old(se.stmts[le32(data)]))
+
+//@ func (*SessionExecutor).handleStmtReset
+//@   requires se != nil && stmtWF(se, data)
+//@   ensures case unknown: len(data) >= 4 && !old(has(se.stmts, le32(data))) ==> ret0 != nil
+//@   ensures case cleared: ret0 == nil ==> old(has(se.stmts, le32(data))) && unbound(old(se.stmts[le32(data)]))
+
+// long data goes to exactly one parameter of exactly one statement (frame: every other store is an obligation);
+// an unknown id or parameter is an error
+//@ func (*SessionExecutor).handleStmtSendLongData
+//@   requires se != nil && stmtWF(se, data)
+//@   assigns se.stmts[le32(data)].args[int(le16at(data, 4))]
+//@   ensures case unknown: len(data) >= 6 && !old(has(se.stmts, le32(data))) ==> ret0 != nil
+//@   ensures case range:   ret0 == nil ==> old(has(se.stmts, le32(data)) && int(le16at(data, 4)) < se.stmts[le32(data)].paramCount)
